@@ -4,9 +4,9 @@ CONSTANTS
   B = 3
   RecMax = 1
   Bodies <- BodiesAll
-  Kinds <- KindsMC
+  Kinds <- KindsMCQ
   MaxDepth = 2
-  Progs <- Programs
+  Progs <- ProgramsMCQ
 INVARIANT TypeOK
 INVARIANT OutcomeMatches
 INVARIANT TimeoutNotSwallowed
